@@ -271,8 +271,15 @@ def check_property(pid, tier, seed):
     samples = []
     histo = {}
     traces = 0
+    runs = []
     for d in spec["drivers"]:
-        res = props.run_driver_check(sys.modules[__name__], pid, d, work, seed, tier)
+        # the thorough tier runs the seeded history driver under three seeds (the pure drivers are exhaustive or
+        # nearly so at that tier and the stress / fact drivers do not depend on the seed)
+        seeds = [seed, seed + 1, seed + 2] if (tier == "thorough" and d["kind"] == "hist") else [seed]
+        for sd in seeds:
+            runs.append((d, sd))
+    for d, sd in runs:
+        res = props.run_driver_check(sys.modules[__name__], pid, d, work if sd == seed else os.path.join(work, "seed%d" % sd), sd, tier)
         evaluations += res["evaluations"]
         distinct |= res["distinct_nontrivial"]
         samples += res["samples"][:4]
